@@ -34,6 +34,8 @@ Definition gen_send_result_deadline_ms : N := 0%%N.
 Definition gen_yield_retry_delay_ms : N := 0%%N.
 Definition gen_yield_retry_keeps_invocation : option bool := Some false.
 Definition gen_invocation_drops : list (string * string * bool) := [("translator failed", "", false)].
+Definition gen_yield_stops_timer_before_retry : option bool := Some false.
+Definition gen_cancel_waits_only_if_interrupt_sent : option bool := Some false.
 Definition gen_queue_makes : list (string * string * string) := [].
 """
 
@@ -139,6 +141,18 @@ def skeleton_report():
     rep["yield_resume_table"] = {
         int(t): (int(u), w.lower())
         for t, u, w in re.findall(r"\(\s*(\d+)(?:%N)?,\s*\(\s*(\d+)(?:%N)?,\s*(Delivered|Cancelled|Lost|OutOfFuel)\s*\)\s*\)", out)}
+    # Conc/CancelModel.v: (mode, room) -> (INTERRUPT queued, caller answered at once)
+    rep["cancel_table"] = {
+        (m_.lower(), room == "true"): (iq == "true", ans == "true")
+        for m_, room, iq, ans in re.findall(
+            r"\(\s*(Skip|Kill|KillNoWait),\s*(true|false),\s*\(\s*(true|false),\s*(true|false)\s*\)\s*\)", out)}
+    try:
+        g = open(GEN_V).read()
+        rep["readings"] = {n: (re.search(n + r" : option bool := (Some true|Some false|None)\.", g) or [None, None])[1]
+                           for n in ("gen_yield_retry_keeps_invocation", "gen_yield_stops_timer_before_retry",
+                                     "gen_cancel_waits_only_if_interrupt_sent")}
+    except OSError:
+        pass
     try:
         m = re.search(r"gen_yield_retry_keeps_invocation : option bool := (Some true|Some false|None)\.", open(GEN_V).read())
         rep["yield_keep"] = m.group(1) if m else None
